@@ -24,6 +24,8 @@ type bsCase struct {
 	BufR int    `json:"bufr"`
 	Ops  []bsOp `json:"ops"`
 	Tag  string `json:"tag"`
+	// Chunk > 0: the reader's source delivers at most Chunk bytes per Read (used by C06); -1 = random sizes
+	Chunk int `json:"chunk,omitempty"`
 }
 
 func arrData(seed uint64, nbits int) []byte {
@@ -121,7 +123,15 @@ func runBsCase(c *bsCase) bsObs {
 
 	// mirrored read program, then a re-segmented one
 	for pass := 0; pass < 2; pass++ {
-		ibs, err := bitstream.NewDefaultInputBitStream(&kz.Source{Data: sink.Bytes()}, uint(c.BufR))
+		src := &kz.Source{Data: sink.Bytes()}
+		if c.Chunk > 0 {
+			ck := c.Chunk
+			src.Chunk = func(int) int { return ck }
+		} else if c.Chunk < 0 {
+			rr := core.NewRng(uint64(len(c.Ops))*977 + uint64(pass))
+			src.Chunk = func(asked int) int { return 1 + rr.Intn(min(asked, 1+rr.Intn(5000))) }
+		}
+		ibs, err := bitstream.NewDefaultInputBitStream(src, uint(c.BufR))
 		if err != nil {
 			return bsObs{"constructor", err.Error(), "new"}
 		}
